@@ -31,6 +31,9 @@ def jobs(tier, seed):
         for prior in (("good", "none") if q else PRIORS):
             for mode in ("kill", "error"):
                 out.append({"kind": "strace", "ext": ext, "prior": prior, "mode": mode, "seed": seed, "size": "small"})
+    for ext in ("json", "pickle"):
+        for prior in ("good", "good+bak"):
+            out.append({"kind": "concurrent", "ext": ext, "prior": prior, "seed": seed, "sample": 40 if q else 0})
     return out
 
 
@@ -439,9 +442,280 @@ def run_strace(job, res):
         shutil.rmtree(work, ignore_errors=True)
 
 
+
+# ---------------------------------------------------------------------------
+# Two saves of the same Persistence from two real threads (the timer's scheduled save and the save of stop(); the two
+# executor jobs of the asyncio flavour). Every file operation is a scheduling point; the directory as it is between
+# two operations is what a crash at that instant leaves behind.
+class TwoThreadSched:
+    WATCHDOG = 20.0
+    SETTLE = 0.03
+
+    def __init__(self):
+        import threading
+
+        self.cv = threading.Condition()
+        self.parked = {}
+        self.count = {}
+        self.granted = None
+        self.inflight = None
+        self.finished = set()
+        self.blocked = set()
+        self.last_event = 0.0
+        self.trace = []
+        self.aborted = False
+
+    def _who(self):
+        import threading
+
+        n = threading.current_thread().name
+        return n if n in ("T1", "T2") else None
+
+    def on_op(self, name, path):
+        import time
+
+        who = self._who()
+        if who is None:
+            return
+        with self.cv:
+            if self.inflight == who:
+                self.inflight = None
+            self.parked[who] = (self.count.get(who, 0), name, os.path.basename(str(path)))
+            self.blocked.discard(who)
+            self.last_event = time.monotonic()
+            self.cv.notify_all()
+            t0 = time.monotonic()
+            while self.granted != who:
+                self.cv.wait(0.2)
+                if self.aborted or time.monotonic() - t0 > self.WATCHDOG:
+                    self.aborted = True
+                    raise SystemExit("scheduler watchdog")
+            self.granted = None
+            self.count[who] = self.count.get(who, 0) + 1
+
+    def on_done(self):
+        import time
+
+        who = self._who()
+        if who is None:
+            return
+        with self.cv:
+            if self.inflight == who:
+                self.inflight = None
+            self.last_event = time.monotonic()
+            self.cv.notify_all()
+
+    def finish(self, who):
+        import time
+
+        with self.cv:
+            if self.inflight == who:
+                self.inflight = None
+            self.finished.add(who)
+            self.last_event = time.monotonic()
+            self.cv.notify_all()
+
+    def quiesce(self, live):
+        """Wait until no operation is in flight and every live thread is parked, finished or blocked (on a lock held by
+        a parked thread). Returns the parked threads; raises TimeoutError when nothing can move any more."""
+        import time
+
+        t0 = time.monotonic()
+        with self.cv:
+            while True:
+                if self.inflight is None:
+                    rest = [t for t in live if t not in self.finished and t not in self.parked]
+                    if not rest:
+                        return dict(self.parked)
+                    undecided = [t for t in rest if t not in self.blocked]
+                    if undecided and time.monotonic() - self.last_event > self.SETTLE:
+                        self.blocked.update(undecided)
+                        undecided = []
+                    if not undecided and self.parked:
+                        return dict(self.parked)
+                if self.aborted or time.monotonic() - t0 > self.WATCHDOG:
+                    self.aborted = True
+                    self.cv.notify_all()
+                    raise TimeoutError("no thread can move")
+                self.cv.wait(0.005)
+
+    def grant(self, who, recheck):
+        with self.cv:
+            self.trace.append((who,) + self.parked.pop(who))
+            if recheck:
+                self.blocked.clear()     # the operation may release what the other thread waits for
+            self.inflight = who
+            self.granted = who
+            self.cv.notify_all()
+
+
+def run_concurrent(job, res):
+    """Schedules with at most two preemptions: T2 (a state change, then its save) starts when T1's save is about to issue
+    its j-th operation; T2 runs until it is about to issue its m-th operation; T1 runs to its end; T2 runs to its end."""
+    import hashlib
+    import threading
+    import time
+
+    from ..drive import projection, strict
+    from ..fsshim import Shim
+    from ..persist import PGateway
+
+    ext, prior = job["ext"], job["prior"]
+    rng = core.rng_for(ID, job["seed"], "concurrent", ext, prior)
+    work = tempfile.mkdtemp(prefix="vf-c12c-")
+    d = os.path.join(work, "dir")
+    jd = os.path.join(work, "judge")
+    os.mkdir(d)
+    os.mkdir(jd)
+    CHANGE = "1;0;1;0;0;77.7"
+    try:
+        LA = lines_for(2, "A")
+        LB = lines_for(2, "A") + [f"3;255;0;0;17;{VERSION}", "1;0;1;0;0;99.9"]
+        LO = lines_for(1, "Old")
+        dataA, dataOld = state_bytes(LA, ext, work), state_bytes(LO, ext, work)
+        sA, sB, sC = (strict(projection(build(L).gw.sensors)) for L in (LA, LB, LB + [CHANGE]))
+        path = os.path.join(d, names(ext)[0])
+        jpath = os.path.join(jd, names(ext)[0])
+        # dry run of one save: which operations there are
+        setup_prior(d, ext, prior, dataA, dataOld)
+        eng = build(LB, path)
+        with Shim("count") as sh:
+            eng.gw.tasks.persistence.save_sensors()
+        ops = list(sh.ops)
+        nonwrite = [i for i, o in enumerate(ops) if o[0] != "write"]
+        writes = [i for i, o in enumerate(ops) if o[0] == "write"]
+        gates = sorted(set(nonwrite + writes[len(writes) // 2:len(writes) // 2 + 1] + [len(ops)]))
+        stops = sorted(set(nonwrite + [len(ops) + 5]))
+        pairs = [(j, m) for j in gates for m in stops]
+        if job.get("sample"):
+            rng.shuffle(pairs)
+            commit = [i for i in nonwrite if ops[i][0] in ("rename", "replace", "remove", "link")]
+            must = [(j, m) for (j, m) in pairs if j in commit[-2:] + [len(ops)] and m in commit]
+            pairs = must + [p for p in pairs if p not in must][: max(0, job["sample"] - len(must))]
+        if job.get("only"):
+            pairs = [tuple(x) for x in job["only"]]
+        verdicts = {}
+
+        def judge(snap, completed, case):
+            key = hashlib.sha1(repr(sorted((k, v if isinstance(v, tuple) else hashlib.sha1(v).hexdigest()) for k, v in snap.items())).encode()).hexdigest()
+            if key not in verdicts:
+                materialise(jd, snap)
+                pg = PGateway("sync", VERSION, jpath)
+                try:
+                    pg.start()
+                    verdicts[key] = ("state", strict(projection(pg.gw.sensors)), sorted(snap))
+                except Exception as exc:
+                    verdicts[key] = ("raises", f"{type(exc).__name__}: {exc}", sorted(snap))
+                finally:
+                    pg.close()
+                res.count("concurrent_distinct_directories_loaded")
+            kind, got, files = verdicts[key]
+            res.count("concurrent_crash_instants_judged")
+            if kind == "raises":
+                res.violation(f"concurrent-saves:load-raises:{case['at']}", f"{case['desc']}: a start-up load of the directory as it is then ({files}) raised {got}", case)
+                return
+            # once a save has returned, what it saved (or something newer) is what a crash must leave
+            allowed = [("old", sA), ("first", sB), ("second", sC)]
+            if "T2" in completed:
+                allowed = allowed[2:]
+            elif "T1" in completed:
+                allowed = allowed[1:]
+            if not any(got == s_ for _n, s_ in allowed):
+                what = "an EMPTY table" if got == strict({}) else next((f"the {n} state" for n, s_ in [("old", sA), ("first", sB), ("second", sC)] if s_ == got), "a state that was never saved")
+                res.violation(f"concurrent-saves:crash-leaves-wrong-state:{case['at']}:{'empty' if got == strict({}) else 'other'}",
+                              f"{case['desc']}: a crash at that instant leaves {files}; the start-up load yields {what}, allowed: {[n for n, _ in allowed]}", case)
+
+        for (j, m) in pairs:
+            setup_prior(d, ext, prior, dataA, dataOld)
+            eng = build(LB, path)
+            pers = eng.gw.tasks.persistence
+            sched = TwoThreadSched()
+            sh = Shim("count")
+            sh.on_op, sh.on_done = sched.on_op, sched.on_done
+            sh.install()
+            errors = {}
+            completed = []
+
+            def t1():
+                try:
+                    pers.save_sensors()
+                    completed.append("T1")
+                except BaseException as exc:
+                    errors["T1"] = exc
+                finally:
+                    sched.finish("T1")
+
+            def t2():
+                try:
+                    eng.feed(CHANGE)
+                    pers.save_sensors()
+                    completed.append("T2")
+                except BaseException as exc:
+                    errors["T2"] = exc
+                finally:
+                    sched.finish("T2")
+
+            th1 = threading.Thread(target=t1, name="T1", daemon=True)
+            th2 = threading.Thread(target=t2, name="T2", daemon=True)
+            case = {"kind": "concurrent", "ext": ext, "prior": prior, "mode": "concurrent", "j": j, "m": m, "opname": "two-saves"}
+            th1.start()
+            live = ["T1"]
+            phase = 0          # 0: T1 alone up to j; 1: T2 preferred up to m; 2: T1 preferred; 3: T2
+            stuck = None
+            try:
+                while True:
+                    parked = sched.quiesce(live)
+                    if phase == 0 and ("T1" in sched.finished or parked.get("T1", (0,))[0] >= j):
+                        th2.start()
+                        live = ["T1", "T2"]
+                        phase = 1
+                        continue
+                    if not parked:
+                        break
+                    last = sched.trace[-1] if sched.trace else None
+                    if last is None or last[2] != "write":
+                        desc = (f"two {ext} saves over prior '{prior}' (second starts before op {j} of the first, is preempted before its op {m}); after "
+                                + (f"{last[0]}'s {last[2]} {last[3]}" if last else "nothing yet") + f" ({len(sched.trace)} operations issued)")
+                        judge(snapshot_dir(d), list(completed), dict(case, at=(f"after-{last[2]}" if last else "start"), desc=desc, trace_len=len(sched.trace)))
+                    if phase == 1 and ("T2" in sched.finished or ("T2" in parked and parked["T2"][0] >= m)):
+                        phase = 2
+                    if phase == 2 and "T1" in sched.finished:
+                        phase = 3
+                    prefer = {0: "T1", 1: "T2", 2: "T1", 3: "T2"}[phase]
+                    who = prefer if prefer in parked else sorted(parked)[0]
+                    sched.grant(who, recheck=parked[who][1] != "write")
+            except TimeoutError:
+                stuck = f"threads parked {sched.parked}, finished {sorted(sched.finished)}"
+            finally:
+                for th in (th1, th2):
+                    if th.ident is not None:
+                        th.join(5)
+                sh.uninstall()
+            res.evals += 1
+            res.count("concurrent_schedules")
+            res.add_set("concurrent_interleavings", hashlib.sha1(repr([(t[0], t[2]) for t in sched.trace if t[2] != "write"]).encode()).hexdigest()[:10])
+            if stuck or th1.is_alive() or th2.is_alive():
+                res.count("concurrent_schedules_stuck")
+                res.notes.append(f"concurrent schedule ({ext},{prior},{j},{m}) did not finish: {stuck}")
+                continue
+            if any(t[0] == "T2" for t in sched.trace) and any(t[0] == "T1" for t in sched.trace[next(i for i, t in enumerate(sched.trace) if t[0] == "T2"):]):
+                res.count("concurrent_schedules_with_overlapping_operations")
+            for who, exc in errors.items():
+                res.violation(f"concurrent-saves:save-raises:{type(exc).__name__}", f"two {ext} saves over prior '{prior}' (j={j}, m={m}): {who}'s save_sensors() raised {type(exc).__name__}: {exc}", dict(case, at="end"))
+            if not errors:
+                desc = f"two {ext} saves over prior '{prior}' (j={j}, m={m}) both returned"
+                judge(snapshot_dir(d), ["T1", "T2"], dict(case, at="end", desc=desc))
+            res.nontrivial((ext, prior, "concurrent", j, m))
+        res.sample({"kind": "concurrent", "ext": ext, "prior": prior, "ops_per_save": len(ops), "gates": len(gates), "stops": len(stops), "schedules": len(pairs)})
+    finally:
+        shutil.rmtree(work, ignore_errors=True)
+
+
 def run(job):
     res = Result()
-    if job["kind"] == "shim":
+    if job["kind"] == "concurrent":
+        run_concurrent(job, res)
+    elif job["kind"] == "shim":
         run_shim(job, res)
     else:
         run_strace(job, res)
@@ -450,6 +724,11 @@ def run(job):
 
 def replay(case):
     res = Result()
+    if case["kind"] == "concurrent":
+        r = run({"kind": "concurrent", "ext": case["ext"], "prior": case["prior"], "seed": 0, "only": [(case["j"], case["m"])]})
+        for v in r.violations:
+            res.violation(v["sig"], v["what"], v["case"])
+        return res
     job = {"kind": case["kind"], "ext": case["ext"], "prior": case["prior"], "size": case.get("size", "small"),
            "mode": case["mode"] if case["kind"] == "strace" else case["mode"], "seed": 0}
     r = run(job)
@@ -463,7 +742,8 @@ def finish(agg, tier):
     floors = [("crash_points", c.get("crash_points", 0), 400), ("failing_ops", c.get("failing_ops", 0), 400),
               ("faults_fired", c.get("faults_fired", 0), 400), ("loads_judged", c.get("loads_judged", 0), 1000),
               ("next_saves_judged", c.get("next_saves_judged", 0), 1000), ("loaded_old", c.get("loaded_old", 0), 100),
-              ("loaded_new", c.get("loaded_new", 0), 30), ("layout:symlink-file", c.get("layout:symlink-file", 0), 150)]
+              ("loaded_new", c.get("loaded_new", 0), 30), ("layout:symlink-file", c.get("layout:symlink-file", 0), 150),
+              ("concurrent_schedules", c.get("concurrent_schedules", 0), 120), ("concurrent_crash_instants_judged", c.get("concurrent_crash_instants_judged", 0), 1500)]
     notes = []
     if c.get("strace_unusable") or not c.get("strace_runs"):
         notes.append("strace half not usable in this sandbox run; the in-process shim half decides")
@@ -478,11 +758,12 @@ def finish(agg, tier):
                 "repeated at system-call level on a real process under strace (SIGKILL on entry to the k-th call; error injection). "
                 "Oracle: a fresh gateway's start_persistence() yields exactly the old or the new complete state, and one more save + "
                 "load yields the then-current state. Layouts: the configured path is the file itself, or (small states, priors none / good / "
-                "good+bak) a symbolic link into another directory. distinct = (format, prior, size, op index, crash/fail, loss variant, layout).",
+                "good+bak) a symbolic link into another directory. Two saves at once: two real threads save through the same Persistence object (the second after a state change), every file operation being a scheduling point of a controller that runs all schedules with at most two preemptions (the second save starts before operation j of the first and is preempted before its own operation m); the directory between any two operations is loaded by a fresh gateway and must give the old state or one of the two saved ones - and nothing older than a save that has already returned; neither save may raise and the final file holds the latest state (how many schedules really overlapped is reported: with a lock around the save none do). distinct = (format, prior, size, op index, crash/fail, loss variant, layout).",
         "floors": floors,
         "notes": notes,
         "assumptions": ["directory operations are durable in issue order (journalled metadata); file data is durable only after fsync",
                         "one fault per save"],
         "show": ["crash_points", "lossy_variants", "failing_ops", "faults_fired", "loads_judged", "next_saves_judged", "strace_runs", "strace_kills",
-                 "strace_errors_seen_by_python"],
+                 "strace_errors_seen_by_python", "concurrent_schedules", "concurrent_crash_instants_judged",
+                 "concurrent_schedules_with_overlapping_operations", "concurrent_schedules_stuck"],
     }
